@@ -40,6 +40,9 @@ SNIPPETS = [
 COMMENTS = [(" -- x\n", "line"), (" --[[x]] ", "block"), ("\n-- x\n", "own-line"), ("\n--[[x]]\n", "own-line-block")]
 CONFIGS = [dict(), dict(collapse_simple_statement="Always", call_parentheses="None"), dict(sort_requires="true", call_parentheses="Input", collapse_simple_statement="FunctionOnly")]
 WIDTHS = [120, 40, 12]
+CONFIGS_THOROUGH = CONFIGS + [dict(collapse_simple_statement="ConditionalOnly", call_parentheses="NoSingleTable", quote_style="ForceSingle"),
+                              dict(call_parentheses="NoSingleString", indent_type="Spaces", indent_width="2", line_endings="Windows", space_after_function_names="Always")]
+WIDTHS_THOROUGH = [120, 80, 60, 40, 30, 20, 12, 6, 1]
 TOK = re.compile(r"\s+|[A-Za-z_][A-Za-z0-9_]*|\d+|\"[^\"]*\"|'[^']*'|`[^`]*`|::|\.\.\.|\.\.|==|~=|<=|>=|//|->|\+=|[^\sA-Za-z0-9_]")
 
 def inputs():
